@@ -668,7 +668,8 @@ pub fn load(
                     .parent()
                     .unwrap()
                     .strip_prefix(import_root.path())
-                    .unwrap()
+                    // a file included from outside the import's directory
+                    .unwrap_or(relpath)
             } else {
                 relpath
             }
